@@ -158,6 +158,8 @@ class Specialiser:
             if e.id in env:
                 return env[e.id]
             return self.table_of(e, env)
+        if isinstance(e, (ast.Tuple, ast.List)) and e.elts and all(isinstance(x, ast.Constant) for x in e.elts):
+            return tuple(x.value for x in e.elts)
         t = self.table_of(e, env) if isinstance(e, (ast.Attribute,)) else _UNKNOWN
         if t is not _UNKNOWN:
             return t
